@@ -1,7 +1,13 @@
 // Package rules holds the property-specific rule instances.
 package rules
 
-import "verif/internal/core"
+import (
+	"go/token"
+
+	"golang.org/x/tools/go/ssa"
+
+	"verif/internal/core"
+)
 
 // Check is the rule set of one property.
 type Check func(c *core.Ctx, l *core.Ledger)
@@ -15,4 +21,27 @@ var TrustedBase = []string{
 	"golang.org/x/tools v0.29.0 go/ssa (SSA construction, dominators) and callgraph/vta",
 	"text/template/parse (template syntax trees)",
 	"the checker itself (/verif/internal), incl. its frozen Thrift binary-protocol table",
+}
+
+// inlineHelpers returns the in-place exploration policy used by trace rules:
+// statically called unexported functions of the caller's own package are
+// explored in place unless the rule's frozen expectations name them (anchors).
+// A newly extracted helper therefore leaves the extracted traces unchanged.
+func inlineHelpers(anchors ...string) func(caller, callee *ssa.Function) bool {
+	known := map[string]bool{}
+	for _, a := range anchors {
+		known[a] = true
+	}
+	return func(caller, callee *ssa.Function) bool {
+		if callee == nil || caller == nil || callee.Pkg == nil || caller.Pkg != callee.Pkg {
+			return false
+		}
+		if token.IsExported(callee.Name()) || known[callee.Name()] {
+			return false
+		}
+		if callee.Synthetic != "" {
+			return false
+		}
+		return true
+	}
 }
